@@ -15,26 +15,34 @@ Open Scope string_scope.
 Open Scope list_scope.
 Open Scope N_scope.
 
+(* l' is contained in l and keeps every injectivity l has (a sub-list up to order) *)
+Definition lsub (l' l : list N) : Prop :=
+  incl l' l /\ forall g : N -> list N, NoDup (map g l) -> NoDup (map g l').
+Lemma lsub_refl l : lsub l l.
+Proof. split; [apply incl_refl|auto]. Qed.
+Lemma lsub_trans a b c : lsub a b -> lsub b c -> lsub a c.
+Proof. intros (I1 & N1) (I2 & N2). split; [eapply incl_tran; eauto|auto]. Qed.
+
 Definition PosRel (w w' : world) : Prop :=
   w_files w' = w_files w /\
   forall m x', model_b w' m = Some x' ->
-    (exists x, model_b w m = Some x /\ incl (m_files x') (m_files x)) \/ m_files x' = [].
+    (exists x, model_b w m = Some x /\ lsub (m_files x') (m_files x)) \/ m_files x' = [].
 
 Lemma PosRel_refl w : PosRel w w.
-Proof. split; auto. intros m x' H. left. exists x'. split; auto. apply incl_refl. Qed.
+Proof. split; auto. intros m x' H. left. exists x'. split; auto. apply lsub_refl. Qed.
 
 Lemma PosRel_trans a b c : PosRel a b -> PosRel b c -> PosRel a c.
 Proof.
   intros (F1 & M1) (F2 & M2). split; [congruence|]. intros m x' H.
   destruct (M2 m x' H) as [(x & Hx & Hi)|E]; auto.
-  destruct (M1 m x Hx) as [(x0 & Hx0 & Hi0)|E]; [left; exists x0; split; auto; eapply incl_tran; eauto|].
-  right. rewrite E in Hi. destruct (m_files x') as [|g l]; auto. exfalso. apply (Hi g). left. reflexivity.
+  destruct (M1 m x Hx) as [(x0 & Hx0 & Hi0)|E]; [left; exists x0; split; auto; eapply lsub_trans; eauto|].
+  right. destruct Hi as (Hi & _). rewrite E in Hi. destruct (m_files x') as [|g l]; auto. exfalso. apply (Hi g). left. reflexivity.
 Qed.
 
 Lemma owned_posrel w w' : FilesOwned w -> PosRel w w' -> FilesOwned w'.
 Proof.
   intros O (F & M) m x' f Hx' Hf. destruct (M m x' Hx') as [(x & Hx & Hi)|E]; [|rewrite E in Hf; destruct Hf].
-  rewrite F. eapply O; eauto.
+  rewrite F. eapply O; eauto. apply (proj1 Hi). exact Hf.
 Qed.
 
 Lemma owned_unowned w o : FilesOwned w -> Unowned w o = false.
@@ -60,7 +68,7 @@ Lemma frame_pos w w' : Core w -> Core w' -> Frame w w' -> PosRel w w'.
 Proof.
   intros C C' F. split; [apply (fr_files _ _ F)|]. intros m x' Hx'.
   destruct (fr_models _ _ F x' (model_b_in _ _ _ Hx')) as [(x & Hx & Hv)|(E & _)]; auto.
-  left. exists x. unfold mview in Hv. injection Hv as Hr Hf. split; [|rewrite Hf; apply incl_refl].
+  left. exists x. unfold mview in Hv. injection Hv as Hr Hf. split; [|rewrite Hf; apply lsub_refl].
   apply In_nth_error in Hx as (k & Hk).
   assert (nth_error (roots w) k = Some (m_root x)) as Hrk by (unfold roots; rewrite nth_error_map, Hk; reflexivity).
   destruct (c_roots _ C _ _ Hrk) as (n & Hn & Hp).
@@ -129,7 +137,7 @@ Lemma cp_pres_km {A} (c : W A) : Pres c -> km c -> cp c.
 Proof.
   intros P K w r w' H C. destruct (P _ _ _ H C) as (C' & _). split; auto.
   destruct (K _ _ _ H) as (M & F). split; auto. intros m x' Hx'. left. exists x'. unfold model_b in *. rewrite <- M.
-  split; auto. apply incl_refl.
+  split; auto. apply lsub_refl.
 Qed.
 Lemma cp_pres_ff {A} (c : W A) : Pres c -> ff c -> cp c.
 Proof.
@@ -147,7 +155,7 @@ Proof.
     - unfold modify_node in H. apply wbind_inv in H as [(n & w1 & H1 & H2) | (e1 & H1 & _)].
       + apply set_node_wset in H2 as ([=] & _).
       + apply get_node_inv in H1 as (? & _ & [=] & _). }
-  split; auto. split; auto. intros m x' Hx'. left. exists x'. unfold model_b in *. rewrite <- M. split; auto. apply incl_refl.
+  split; auto. split; auto. intros m x' Hx'. left. exists x'. unfold model_b in *. rewrite <- M. split; auto. apply lsub_refl.
 Qed.
 
 Create HintDb cp discriminated.
@@ -229,14 +237,14 @@ Proof.
   - destruct k as [|k]; destruct j as [|j]; cbn; auto.
 Qed.
 
-Lemma posrel_set_model w m x y : model_b w m = Some x -> incl (m_files y) (m_files x) ->
+Lemma posrel_set_model w m x y : model_b w m = Some x -> lsub (m_files y) (m_files x) ->
   PosRel w (wmodels w (list_set (w_models w) (N.to_nat m) y)).
 Proof.
   intros Hx Hi. split; [reflexivity|]. intros m' x' H. unfold model_b in *. cbn in H.
   rewrite nth_opt_error in H. rewrite nth_error_list_set in H. rewrite <- !nth_opt_error in H.
   destruct (Nat.eqb (N.to_nat m') (N.to_nat m)) eqn:E.
   - apply Nat.eqb_eq in E. rewrite E in *. rewrite Hx in H. injection H as <-. left. exists x. auto.
-  - left. exists x'. split; auto. apply incl_refl.
+  - left. exists x'. split; auto. apply lsub_refl.
 Qed.
 
 Lemma cp_modify_model_idx m g : (forall y, m_root (g y) = m_root y /\ m_files (g y) = m_files y) -> cp (modify_model m g).
@@ -246,7 +254,7 @@ Proof.
     clear - Hx Er. revert Hx. generalize (N.to_nat m) as k. induction (w_models w) as [|a l IH]; intros [|k] Hx; cbn in *; try discriminate; auto.
     + injection Hx as ->. rewrite Er. reflexivity.
     + rewrite (IH k Hx). reflexivity.
-  - apply (posrel_set_model w m x (g x) Hx). rewrite Ef. apply incl_refl.
+  - apply (posrel_set_model w m x (g x) Hx). rewrite Ef. apply lsub_refl.
 Qed.
 
 Lemma swap_remove_incl (f : N) l pos : index_of (N.eqb f) l = Some pos -> incl (swap_remove_at l pos) l.
@@ -254,6 +262,15 @@ Proof.
   intros H g Hg. destruct (FilesProofsRemove.index_of_split f l pos H) as (l1 & l2 & El & Ep). subst l pos.
   eapply Permutation.Permutation_in in Hg; [|apply swap_remove_at_perm].
   apply in_app_iff in Hg as [Hg|Hg]; apply in_or_app; [left|right; right]; auto.
+Qed.
+
+Lemma swap_remove_lsub (f : N) l pos : index_of (N.eqb f) l = Some pos -> lsub (swap_remove_at l pos) l.
+Proof.
+  intros H. split; [eapply swap_remove_incl; eauto|]. intros g Hnd.
+  destruct (FilesProofsRemove.index_of_split f l pos H) as (l1 & l2 & El & Ep). subst l pos.
+  pose proof (swap_remove_at_perm l1 f l2) as P. apply (Permutation.Permutation_map g) in P.
+  eapply Permutation.Permutation_NoDup; [apply Permutation.Permutation_sym; exact P|].
+  rewrite map_app in *. cbn [map] in Hnd. eapply NoDup_remove_1; eauto.
 Qed.
 
 Hint Resolve cp_e_add_to_file cp_e_remove_from_file cp_set_file_membership : cp.
@@ -271,7 +288,7 @@ Proof.
   assert (Core (wmodels w (list_set (w_models w) (N.to_nat m) (set_mfiles x (swap_remove_at (m_files x) pos))))) as C1
     by (eapply Core_same_tree; eauto).
   assert (PosRel w (wmodels w (list_set (w_models w) (N.to_nat m) (set_mfiles x (swap_remove_at (m_files x) pos))))) as P1.
-  { apply (posrel_set_model w m x); auto. cbn. eapply swap_remove_incl; eauto. }
+  { apply (posrel_set_model w m x); auto. cbn. eapply swap_remove_lsub; eauto. }
   match type of H with ?mm ?wa = _ => assert (cp mm) as P end.
   { destruct (is_empty _); [|cp_tac].
     apply cp_bind; [cp_tac|]. intros rn.
@@ -331,7 +348,7 @@ Proof.
   rewrite (mr_models _ _ _ R), nth_error_map in H1.
   destruct (nth_error (w_models w) (N.to_nat m)) as [x|] eqn:E; [|discriminate]. cbn in H1.
   assert (m_files x = m_files x') as Ef by (unfold mview in H1; congruence).
-  exists x. split; auto. rewrite Ef. apply incl_refl.
+  exists x. split; auto. rewrite Ef. apply lsub_refl.
 Qed.
 
 Let run := run_op T tab_el tab_en check_fn LATEST root_attrs.
